@@ -18,7 +18,7 @@ func NewVC(P *Program, CS *ContractSet, L *Layout, fn *ssa.Function, ct *FuncCon
 		blockOut: map[*ssa.BasicBlock]Heap{}, blockR: map[*ssa.BasicBlock]string{},
 		strConst: map[string]string{}, f64Const: map[string]string{}, typeIDs: map[string]int{}, ufDecl: map[string]bool{},
 		notes: map[string]bool{}, assumed: map[string]bool{}, callees: map[string]bool{},
-		blockExit: map[*ssa.BasicBlock]string{}, rangeOf: map[ssa.Value]ssa.Value{}}
+		blockExit: map[*ssa.BasicBlock]string{}, rangeOf: map[ssa.Value]ssa.Value{}, atCallSeen: map[string]int{}}
 	vc.nestedBV = P.nestedByValue()
 	return vc
 }
